@@ -46,6 +46,12 @@ def parseLinkErr (s : String) : R LinkErr :=
   else if s == "EACCES" then .ok .eacces
   else .error s!"bad errno {s}"
 
+/-- `{"other": errno number, "cls": hex of the OSError subclass name}` -/
+def parseOther (j : Json) : R (Nat × Bytes) := do
+  let en ← natF j "other"
+  let cls ← bytesF j "cls"
+  pure (en, cls)
+
 def parseFileErr (s : String) : R FileErr :=
   if s == "EACCES" then .ok .denied else (parseGone s).map .gone
 
@@ -64,6 +70,26 @@ def linkErrName : LinkErr → String
   | .einval => "EINVAL"
   | .enametoolong => "ENAMETOOLONG"
   | .eacces => "EACCES"
+  | .other en _ => s!"errno{en}"
+
+/-- link result: `{"ok": hex}`, `{"err": "ENOENT"}` or `{"other": n, "cls": hex}` -/
+def parseLink (j : Json) : R (Res LinkErr Bytes) :=
+  match j.getObjVal? "other" with
+  | .ok _ => do
+    let (en, cls) ← parseOther j
+    pure (.err (.other en cls))
+  | .error _ =>
+    match j.getObjVal? "ok" with
+    | .ok v => (asBytes v).map .ok
+    | .error _ => do
+      let e ← strF j "err"
+      let e ← parseLinkErr e
+      pure (.err e)
+
+def jLink : Res LinkErr Bytes → Json
+  | .ok b => jObj [("ok", jBytes b)]
+  | .err (.other en cls) => jObj [("other", jNat en), ("cls", jBytes cls)]
+  | .err e => jObj [("err", Json.str (linkErrName e))]
 
 /-- `{"ok": hex}` or `{"err": "ENOENT"}` -/
 def parseRes (pe : String → R ε) (j : Json) : R (Res ε Bytes) :=
@@ -147,28 +173,34 @@ def parseInfo (j : Json) : R InfoRes :=
       let e ← strF re "errno" >>= parseGone
       pure (.readErr content second e)
     | .error _ => pure (.ok content)
-  | .error _ => do
-    let e ← strF j "err"
-    if e == "EACCES" then pure .openDenied
-    else do
-      let e ← parseGone e
-      pure (.openErr e)
+  | .error _ =>
+    match j.getObjVal? "other" with
+    | .ok _ => do
+      let (en, cls) ← parseOther j
+      pure (.openOther en cls)
+    | .error _ => do
+      let e ← strF j "err"
+      if e == "EACCES" then pure .openDenied
+      else do
+        let e ← parseGone e
+        pure (.openErr e)
 
 def jInfo : InfoRes → Json
   | .ok b => jObj [("ok", jBytes b)]
   | .openErr e => jObj [("err", Json.str (goneName e))]
   | .openDenied => jObj [("err", Json.str "EACCES")]
+  | .openOther en cls => jObj [("other", jNat en), ("cls", jBytes cls)]
   | .readErr b second e =>
     jObj [("ok", jBytes b), ("read_err", jObj [("second", Json.bool second), ("errno", Json.str (goneName e))])]
 
 def parseEntry (j : Json) : R Entry := do
   let name ← bytesF j "name"
-  let link ← field j "link" >>= parseRes parseLinkErr
+  let link ← field j "link" >>= parseLink
   let info ← field j "info" >>= parseInfo
   pure ⟨name, link, info⟩
 
 def jEntry (e : Entry) : Json :=
-  jObj [("name", jBytes e.name), ("link", jRes linkErrName e.link), ("info", jInfo e.info)]
+  jObj [("name", jBytes e.name), ("link", jLink e.link), ("info", jInfo e.info)]
 
 def jProc (p : Proc) : Json :=
   jObj [("alive", Json.bool p.alive), ("zombie", Json.bool p.zombie),
@@ -217,7 +249,8 @@ def handle (_ : Unit) (j : Json) : R (Unit × Json) := do
     let da ← optF asNat j "dies_at"
     let zombie ← optBool j "zombie"
     let dirDenied ← optBool j "dir_denied"
-    let w : Spec.World := ⟨fds, fs, gb, da, zombie, dirDenied⟩
+    let afterLink ← optBool j "dies_after_link"
+    let w : Spec.World := ⟨fds, fs, gb, da, zombie, dirDenied, afterLink⟩
     let p := Spec.renderWorld w
     let model := jObj [("open_files", jOutcome (jList jFile) (openFiles cfg fs p)),
                        ("num_fds", jOutcome jNat (numFds cfg p))]
